@@ -462,7 +462,7 @@ lyplg_type_parse_dec64(uint8_t fraction_digits, const char *value, size_t value_
     }
 
     trailing_zeros = 0;
-    if ((len < value_len) && ((value[len] != '.') || !isdigit(value[len + 1]))) {
+    if ((len < value_len) && ((value[len] != '.') || (len + 1 == value_len) || !isdigit(value[len + 1]))) {
         goto decimal;
     }
     fraction = len;
